@@ -1,6 +1,6 @@
 (* C13 — executable model of the string-literal lexer of DemoHn/Zn:
      pkg/syntax/zh/tokens.go   parseString (401-459), unescapeBackTickSpecialStr (687-864),
-     pkg/syntax/lexer.go       Next / Peek / Peek2 / getChar (EOF = 0 past the end of the source).
+     pkg/syntax/lexer.go       Next / Peek / Peek2 / getChar (RuneEOF past the end of the source).
    Source text, literals and values are lists of code points (Z).  Definitions only; the proofs are in
    proofs/StringLitProofs.v, the statements in props/C13.v.
 
@@ -8,8 +8,13 @@
        cur  : the character under the cursor (l.GetCurrentChar())
        pos  : the cursor
        rest : the characters after the cursor
-   so that  Peek = hd 0 rest,  Peek2 = nth 1 rest 0,  and  Next  moves to (hd 0 rest, pos+1, tl rest).
-   As in Go, reading past the end yields RuneEOF = 0 and the cursor keeps growing.
+   so that  Peek = hd EOF rest,  Peek2 = nth 1 rest EOF,  and  Next  moves to (hd EOF rest, pos+1, tl rest).
+   As in Go, reading past the end yields RuneEOF (parseString then reports "incomplete string").
+
+   REPAIRED CODE (findings/C13.md, fixes/C13-1.patch): the pinned tree has RuneEOF = 0, i.e. the character NUL
+   (U+0000) doubles as the end-of-input mark, so a terminated literal containing a NUL is rejected as "incomplete
+   string" (and a NUL outside a literal silently ends the program).  The model follows the repaired lexer, in which
+   RuneEOF = -1 is not a character.
    None of the Go operations involved can panic (the only slice expression, literalBuffer[3:len-1], is
    reached with len >= 5), so there is no Crash result. *)
 From Coq Require Import List ZArith Bool.
@@ -20,7 +25,7 @@ Open Scope Z_scope.
 Definition BT    : Z := 0x60.    (* ` *)
 Definition CR    : Z := 0x0D.
 Definition LF    : Z := 0x0A.
-Definition EOFc  : Z := 0.       (* syntax.RuneEOF *)
+Definition EOFc  : Z := -1.      (* syntax.RuneEOF (repaired: not a code point) *)
 Definition LLIB  : Z := 0x300A.  (* 《 *)
 Definition RLIB  : Z := 0x300B.  (* 》 *)
 Definition LDQ1  : Z := 0x300C.  (* 「 *)
@@ -54,8 +59,8 @@ Definition token_type (sch : Z) : Z :=
   if (sch =? LSQ1) || (sch =? LSQ2) then TypeEnumString
   else if sch =? LLIB then TypeLibString else TypeString.
 
-Definition peek (rest : list Z) : Z := hd 0 rest.
-Definition peek2 (rest : list Z) : Z := nth 1 rest 0.
+Definition peek (rest : list Z) : Z := hd EOFc rest.
+Definition peek2 (rest : list Z) : Z := nth 1 rest EOFc.
 
 Fixpoint list_eqb (a b : list Z) : bool :=
   match a, b with
@@ -135,7 +140,9 @@ Fixpoint esc_loop (cur : Z) (s : est) (hexCount : Z) (buf : list Z) (n : Z) (res
     else (buf, n, rest)
   else
     match rest with
-    | [] => (buf ++ [EOFc], n + 1, [])          (* l.Next() past the end = RuneEOF: default -> UNDONE_end *)
+    | [] => (buf, n, [])       (* end of the source: the machine does not step over it (fixes/C05-1-escape-at-eof.patch;
+                                  the pinned code reads RuneEOF into the buffer and moves the cursor to len+1 — the
+                                  outcome, "incomplete string", is the same) *)
     | cch :: rest' =>
         let buf' := buf ++ [cch] in
         if is_hex cch && est_eqb s smP then esc_loop cch sHexNum 1 buf' (n + 1) rest'
@@ -220,27 +227,31 @@ Fixpoint surplus (o c : Z) (r : list Z) : nat :=
                else surplus o c r'
   end.
 
-(* k = number of own opening quotes written verbatim and not yet closed *)
-Fixpoint encode_from (o c : Z) (k : nat) (s : list Z) : list Z :=
+(* k = number of own opening quotes written verbatim and not yet closed.
+   nul = true writes NUL as `U+0` (an editor-friendly choice that also works on the pinned lexer);
+   nul = false writes it verbatim like every other character. *)
+Fixpoint encode_from (nul : bool) (o c : Z) (k : nat) (s : list Z) : list Z :=
   match s with
   | [] => []
   | x :: r =>
-      if x =? BT then esc_BK ++ encode_from o c k r
-      else if x =? 0 then esc_NUL ++ encode_from o c k r
+      if x =? BT then esc_BK ++ encode_from nul o c k r
+      else if nul && (x =? 0) then esc_NUL ++ encode_from nul o c k r
       else if x =? c then
         match k with
-        | O => wrap c ++ encode_from o c O r              (* no partner to the left: `c` *)
-        | S k' => c :: encode_from o c k' r               (* closes a verbatim opening quote *)
+        | O => wrap c ++ encode_from nul o c O r              (* no partner to the left: `c` *)
+        | S k' => c :: encode_from nul o c k' r               (* closes a verbatim opening quote *)
         end
       else if x =? o then
         match surplus o c r with
-        | O => wrap o ++ encode_from o c k r              (* no partner to the right: `o` *)
-        | S _ => o :: encode_from o c (S k) r             (* balanced: verbatim *)
+        | O => wrap o ++ encode_from nul o c k r              (* no partner to the right: `o` *)
+        | S _ => o :: encode_from nul o c (S k) r             (* balanced: verbatim *)
         end
-      else x :: encode_from o c k r
+      else x :: encode_from nul o c k r
   end.
 
-Definition encode (o : Z) (s : list Z) : list Z := encode_from o (quote_match o) O s.
+Definition encode_gen (nul : bool) (o : Z) (s : list Z) : list Z := encode_from nul o (quote_match o) O s.
+Definition encode (o : Z) (s : list Z) : list Z := encode_gen true o s.
+Definition literal_gen (nul : bool) (o : Z) (s : list Z) : list Z := o :: encode_gen nul o s ++ [quote_match o].
 Definition literal_of (o : Z) (s : list Z) : list Z := o :: encode o s ++ [quote_match o].
 
 (* ---- helpers for the per-run correspondence check (evaluated with vm_compute) *)
@@ -275,7 +286,8 @@ Fixpoint balanced (o c : Z) (k : nat) (s : list Z) : bool :=
               else if x =? o then balanced o c (S k) r
               else balanced o c k r
   end.
-Definition no_special (s : list Z) : bool := forallb (fun x => negb (x =? BT) && negb (x =? 0)) s.
+(* code points other than the backtick *)
+Definition no_special (s : list Z) : bool := forallb (fun x => negb (x =? BT) && (0 <=? x)) s.
 
 (* how to write a code point as `U+h`: n upper-case hex digits, most significant first *)
 Definition hex_char (d : Z) : Z := if d <? 10 then 48 + d else 55 + d.
